@@ -561,8 +561,8 @@ Lemma secret_follows_pull (c : bool) (kos : list Creds.op) (name : nat -> Creds.
     kos = pre ++ Creds.Pull (Some r) (Some a) ok :: post
     /\ (forall o, In o post -> Creds.touches r o = false)
     /\ (c = true \/ In Creds.Connect pre)
-    /\ (Creds.a_sa a = Creds.SAEmpty
-        \/ (Creds.a_sa a <> Creds.SAEmpty /\ Creds.url_host (Creds.a_sa a) = Some (Creds.alias (name j)))).
+    /\ (Creds.sa_is_empty (Creds.a_sa a) = true
+        \/ (Creds.sa_is_empty (Creds.a_sa a) = false /\ Creds.url_host (Creds.a_sa a) = Some (Creds.alias (name j)))).
 Proof.
   intros creds Hq Hs. pose proof (secret_offered creds j q Hq Hs) as Hk. unfold creds in Hk.
   destruct (kind_secret_nonempty _ Hk) as (u & s & E & Hne).
